@@ -60,7 +60,7 @@ func TestC06(t *testing.T) {
 	p := &dbm.Profile{
 		MinOps: 20, MaxOps: 300, DetPercent: 50, Tree: true, SlowRemovePercent: 30,
 		W: map[string]int{"put": 34, "del": 10, "batch": 10, "bigbatch": 2, "compact": 4, "reopen": 2, "idle": 2,
-			"snap": 2, "snaprel": 1, "get": 6, "tropen": 1, "trcommit": 2, "trdiscard": 1, "churn": 1, "recover": 1},
+			"snap": 2, "snaprel": 1, "get": 6, "tropen": 1, "trcommit": 2, "trdiscard": 1, "churn": 1, "recover": 1, "sizeof": 2},
 	}
 	runDBM(t, "C06", p, func(c *dbm.Case, st *dbm.Stats) (bool, []string) {
 		var cl []string
@@ -79,7 +79,7 @@ func TestC07(t *testing.T) {
 		MinOps: 20, MaxOps: 260, DetPercent: 60, Files: true, SlowRemovePercent: 30,
 		W: map[string]int{"put": 34, "del": 8, "batch": 8, "bigbatch": 2, "compact": 5, "reopen": 2, "idle": 6,
 			"iter": 5, "iterwalk": 6, "iterrel": 2, "snap": 1, "snaprel": 1,
-			"tropen": 1, "trcommit": 1, "trdiscard": 2, "churn": 2},
+			"tropen": 1, "trcommit": 1, "trdiscard": 2, "churn": 2, "sizeof": 3},
 		Tweak: func(t *rapid.T, o *gen.OptSpec) {
 			o.OpenFilesCap = rapid.SampledFrom([]int{1, 1, 2, 2, 8, 0}).Draw(t, "ofc7")
 		},
